@@ -430,7 +430,16 @@ func (ctx *Context) evaluate() {
 		isGE      bool
 	}
 
+	// 一个 WoD / DC 算式的操作数里可以再出现同类算式(如 (3a11m1k1)a11、2a(3a10m6))；内层算式开始时保存外层的参数，
+	// 掷完之后恢复，否则内层的 m/k/q 会留给外层
+	wodSaved := []struct {
+		pool      IntType
+		points    IntType
+		threshold IntType
+		isGE      bool
+	}{}
 	wodInit := func() {
+		wodSaved = append(wodSaved, wodState)
 		wodState.pool = 1
 		wodState.points = 10   // 面数，默认d10
 		wodState.threshold = 8 // 成功线，默认9
@@ -442,7 +451,12 @@ func (ctx *Context) evaluate() {
 		points IntType
 	}
 
+	dcSaved := []struct {
+		pool   IntType
+		points IntType
+	}{}
 	dcInit := func() {
+		dcSaved = append(dcSaved, dcState)
 		dcState.pool = 1    // 骰数，默认1
 		dcState.points = 10 // 面数，默认d10
 	}
@@ -1091,6 +1105,9 @@ func (ctx *Context) evaluate() {
 			details[len(details)-1].Text = detailText
 			details[len(details)-1].Tag = "dice-wod"
 			stackPush(ret)
+			if n := len(wodSaved); n > 0 {
+				wodState, wodSaved = wodSaved[n-1], wodSaved[:n-1]
+			}
 
 		case typeDCSetInit:
 			// Double Cross
@@ -1127,6 +1144,9 @@ func (ctx *Context) evaluate() {
 			details[len(details)-1].Text = detailText
 			details[len(details)-1].Tag = "dice-dc"
 			stackPush(ret)
+			if n := len(dcSaved); n > 0 {
+				dcState, dcSaved = dcSaved[n-1], dcSaved[:n-1]
+			}
 
 		case typeBlockPush:
 			if blockIndex >= len(blockStack) {
